@@ -1,161 +1,284 @@
 #!/usr/bin/env python3
 """Fail-closed translator: utilities.fluxLimiter and advection._fsign  ->  coq/Gen/Limiters.v
 
-Every run of a check that depends on the limiters regenerates the Coq file from the
-current /repo source, so the theorems in Theory/LimiterThy.v are re-checked against what
-the code says now.  Anything outside the accepted AST fragment raises TranslateError.
+Every run of a check that depends on the limiters regenerates the Coq file from the current /repo source, so the theorems
+in Theory/LimiterThy.v are re-checked against what the code says now.
 
-Accepted fragment (expressions over the names r / eps / b / phi_in / eps1):
-   + - * /, unary -, x**2.0 (-> x*x), float/int literals (exact rationals),
-   comparisons > >= < <= == with one operator (-> 0/1 factor),
-   np.abs np.minimum np.maximum np.sign.
+Method: SYMBOLIC TRACING.  The two source files are loaded (as plain modules, outside the package) and the functions the
+library itself would call -- `fluxLimiter(name, eps)` and the closure it returns, `_fsign(phi, eps1)` -- are executed on
+symbolic operands.  Every arithmetic operator, comparison and numpy ufunc applied to a symbolic operand is recorded as a node
+of a Coq expression over the abstract field; denominators are collected in evaluation order.  The result is the expression
+the code computes for array operands, however the source is organised (if-chain, table of closures, helper functions ...).
+Anything that would make the trace depend on the DATA raises TranslateError (fail closed):
+   truth value of a symbolic comparison (if/while/and/or on data), conversion to float/int/array, any numpy function or
+   ufunc outside {add subtract multiply true_divide negative absolute sign maximum minimum power(.,2) greater greater_equal
+   less less_equal equal where}, ufunc keyword arguments (out=, where=), powers other than 2.
+Limiter names: the string constants occurring in the source of fluxLimiter for which the function does not print its
+"not available" warning; the fall-back limiter is traced with a name that is not in the source.
+Trusted: CPython's operator dispatch and numpy's __array_ufunc__/__array_function__ protocols route every operation on a
+symbolic operand to the recorder (an operation that bypassed them could not produce a numeric result from a symbol anyway).
 """
-import ast, sys, os
+import ast, sys, os, io, inspect, contextlib, importlib.util
 from fractions import Fraction
+
 
 class TranslateError(Exception):
     pass
 
+
 def lit(v):
     if isinstance(v, bool) or not isinstance(v, (int, float)):
         raise TranslateError(f"unsupported literal {v!r}")
+    if isinstance(v, float) and (v != v or v in (float("inf"), float("-inf"))):
+        raise TranslateError(f"non-finite literal {v!r}")
     fr = Fraction(v)   # exact value of the float
     n, d = fr.numerator, fr.denominator
     if d == 1:
         return f"(kofZ F ({n})%Z)"
     return f"(kofQ F ({n})%Z ({d})%positive)"
 
-CMP = {ast.Gt: lambda a, b: f"(kltb F {b} {a})",
-       ast.Lt: lambda a, b: f"(kltb F {a} {b})",
-       ast.GtE: lambda a, b: f"(kleb F {b} {a})",
-       ast.LtE: lambda a, b: f"(kleb F {a} {b})",
-       ast.Eq: lambda a, b: f"(keqb F {a} {b})"}
 
-class ExprTr:
-    def __init__(self, names):
-        self.names = dict(names)   # python name -> coq term
-        self.dens = []             # denominators in evaluation order
-
-    def tr(self, e):
-        if isinstance(e, ast.BinOp):
-            if isinstance(e.op, ast.Pow):
-                if isinstance(e.right, ast.Constant) and e.right.value in (2, 2.0):
-                    a = self.tr(e.left)
-                    return f"(kmul F {a} {a})"
-                raise TranslateError("only **2 supported")
-            a = self.tr(e.left); b = self.tr(e.right)
-            if isinstance(e.op, ast.Add): return f"(kadd F {a} {b})"
-            if isinstance(e.op, ast.Sub): return f"(ksub F {a} {b})"
-            if isinstance(e.op, ast.Mult): return f"(kmul F {a} {b})"
-            if isinstance(e.op, ast.Div):
-                self.dens.append(b)
-                return f"(kdiv F {a} {b})"
-            raise TranslateError(f"unsupported operator {ast.dump(e.op)}")
-        if isinstance(e, ast.UnaryOp):
-            if isinstance(e.op, ast.USub):
-                if isinstance(e.operand, ast.Constant):
-                    return lit(-e.operand.value)
-                return f"(kopp F {self.tr(e.operand)})"
-            if isinstance(e.op, ast.UAdd):
-                return self.tr(e.operand)
-            raise TranslateError("unsupported unary operator")
-        if isinstance(e, ast.Constant):
-            return lit(e.value)
-        if isinstance(e, ast.Name):
-            if e.id in self.names:
-                return self.names[e.id]
-            raise TranslateError(f"unknown name {e.id}")
-        if isinstance(e, ast.Compare):
-            if len(e.ops) != 1 or type(e.ops[0]) not in CMP:
-                raise TranslateError("unsupported comparison")
-            a = self.tr(e.left); b = self.tr(e.comparators[0])
-            return f"(b2k F {CMP[type(e.ops[0])](a, b)})"
-        if isinstance(e, ast.Call):
-            f = e.func
-            if (isinstance(f, ast.Attribute) and isinstance(f.value, ast.Name)
-                    and f.value.id == "np" and not e.keywords):
-                args = [self.tr(a) for a in e.args]
-                if f.attr == "abs" and len(args) == 1: return f"(kabs F {args[0]})"
-                if f.attr == "sign" and len(args) == 1: return f"(ksign F {args[0]})"
-                if f.attr == "minimum" and len(args) == 2: return f"(kmin F {args[0]} {args[1]})"
-                if f.attr == "maximum" and len(args) == 2: return f"(kmax F {args[0]} {args[1]})"
-            raise TranslateError(f"unsupported call {ast.dump(f)}")
-        raise TranslateError(f"unsupported expression {ast.dump(e)}")
+class Tracer:
+    def __init__(self):
+        self.dens = []
 
 
-def tr_FL(fd, extra_names):
-    """fd: FunctionDef FL(r) -> (coq body, [denominators])"""
-    if not (isinstance(fd, ast.FunctionDef) and fd.name == "FL" and [a.arg for a in fd.args.args] == ["r"]
-            and not fd.args.defaults and not fd.args.vararg and not fd.args.kwarg):
-        raise TranslateError("expected def FL(r)")
-    names = {"r": "r"}; names.update(extra_names)
-    body = list(fd.body)
-    tr = ExprTr(names)
-    while len(body) > 1:
-        st = body.pop(0)
-        if (isinstance(st, ast.Assign) and len(st.targets) == 1 and isinstance(st.targets[0], ast.Name)
-                and isinstance(st.value, ast.Constant)):
-            tr.names[st.targets[0].id] = lit(st.value.value)
-        else:
-            raise TranslateError("unsupported statement in FL")
-    st = body[0]
-    if not isinstance(st, ast.Return) or st.value is None:
-        raise TranslateError("FL must end in return <expr>")
-    return tr.tr(st.value), tr.dens
+def _np():
+    import numpy
+    return numpy
+
+
+class Sym:
+    """a field-valued (is_bool = False) or boolean-valued (is_bool = True) symbolic expression"""
+    __array_priority__ = 1e6
+    __hash__ = None
+
+    def __init__(self, tr, txt, is_bool=False):
+        self.tr, self.txt, self.is_bool = tr, txt, is_bool
+
+    # -- coercions
+    def num(self):
+        return f"(b2k F {self.txt})" if self.is_bool else self.txt
+
+    def _lift(self, o):
+        if isinstance(o, Sym):
+            if o.tr is not self.tr:
+                raise TranslateError("operands of different traces")
+            return o.num()
+        np = _np()
+        if isinstance(o, np.generic):
+            o = o.item()
+        if isinstance(o, np.ndarray):
+            if o.ndim == 0:
+                o = o.item()
+            else:
+                raise TranslateError("array constant in a traced expression")
+        return lit(o)
+
+    def _bin(self, op, a, b):
+        return Sym(self.tr, f"({op} F {a} {b})")
+
+    # -- arithmetic
+    def __add__(self, o): return self._bin("kadd", self.num(), self._lift(o))
+    def __radd__(self, o): return self._bin("kadd", self._lift(o), self.num())
+    def __sub__(self, o): return self._bin("ksub", self.num(), self._lift(o))
+    def __rsub__(self, o): return self._bin("ksub", self._lift(o), self.num())
+    def __mul__(self, o): return self._bin("kmul", self.num(), self._lift(o))
+    def __rmul__(self, o): return self._bin("kmul", self._lift(o), self.num())
+
+    def __truediv__(self, o):
+        a, b = self.num(), self._lift(o)
+        self.tr.dens.append(b)
+        return self._bin("kdiv", a, b)
+
+    def __rtruediv__(self, o):
+        a, b = self._lift(o), self.num()
+        self.tr.dens.append(b)
+        return self._bin("kdiv", a, b)
+
+    def __neg__(self): return Sym(self.tr, f"(kopp F {self.num()})")
+    def __pos__(self): return self
+    def __abs__(self): return Sym(self.tr, f"(kabs F {self.num()})")
+
+    def __pow__(self, o, mod=None):
+        if mod is not None or isinstance(o, Sym) or isinstance(o, bool) or o not in (2, 2.0):
+            raise TranslateError("only **2 supported")
+        a = self.num()
+        return Sym(self.tr, f"(kmul F {a} {a})")
+
+    def __rpow__(self, o): raise TranslateError("symbolic exponent")
+    def __floordiv__(self, o): raise TranslateError("floor division")
+    def __mod__(self, o): raise TranslateError("modulo")
+
+    # -- comparisons (0/1 factors when used arithmetically)
+    def _cmp(self, op, a, b): return Sym(self.tr, f"({op} F {a} {b})", True)
+    def __gt__(self, o): return self._cmp("kltb", self._lift(o), self.num())
+    def __lt__(self, o): return self._cmp("kltb", self.num(), self._lift(o))
+    def __ge__(self, o): return self._cmp("kleb", self._lift(o), self.num())
+    def __le__(self, o): return self._cmp("kleb", self.num(), self._lift(o))
+    def __eq__(self, o): return self._cmp("keqb", self.num(), self._lift(o))
+    def __ne__(self, o): raise TranslateError("!= on symbolic data")
+
+    # -- everything that would let control flow or the numeric stack see the data
+    def __bool__(self): raise TranslateError("truth value of symbolic data (data-dependent control flow)")
+    def __float__(self): raise TranslateError("float() of symbolic data")
+    def __int__(self): raise TranslateError("int() of symbolic data")
+    def __index__(self): raise TranslateError("symbolic index")
+    def __len__(self): raise TranslateError("len() of symbolic data")
+    def __iter__(self): raise TranslateError("iteration over symbolic data")
+    def __getitem__(self, k): raise TranslateError("indexing symbolic data")
+    def __array__(self, *a, **k): raise TranslateError("conversion of symbolic data to an array")
+    def __and__(self, o): raise TranslateError("& on symbolic data")
+    def __or__(self, o): raise TranslateError("| on symbolic data")
+    def __invert__(self): raise TranslateError("~ on symbolic data")
+
+    # -- numpy protocols
+    def __array_ufunc__(self, ufunc, method, *inputs, **kwargs):
+        np = _np()
+        if method != "__call__" or kwargs:
+            raise TranslateError(f"ufunc {ufunc.__name__} with method {method} / keyword arguments")
+        me = next(x for x in inputs if isinstance(x, Sym))
+        def S(x):
+            return x if isinstance(x, Sym) else Sym(me.tr, me._lift(x))
+        un = {np.absolute: "__abs__", np.negative: "__neg__", np.positive: "__pos__"}
+        if ufunc in un and len(inputs) == 1:
+            return getattr(S(inputs[0]), un[ufunc])()
+        if ufunc is np.sign and len(inputs) == 1:
+            return Sym(me.tr, f"(ksign F {S(inputs[0]).num()})")
+        if len(inputs) == 2:
+            a, b = S(inputs[0]), S(inputs[1])
+            if ufunc is np.maximum: return Sym(me.tr, f"(kmax F {a.num()} {b.num()})")
+            if ufunc is np.minimum: return Sym(me.tr, f"(kmin F {a.num()} {b.num()})")
+            if ufunc is np.add: return a + b
+            if ufunc is np.subtract: return a - b
+            if ufunc is np.multiply: return a * b
+            if ufunc in (np.true_divide, np.divide): return a / b
+            if ufunc is np.power:
+                if isinstance(inputs[1], Sym):
+                    raise TranslateError("symbolic exponent")
+                return a ** inputs[1]
+            if ufunc is np.greater: return a > b
+            if ufunc is np.less: return a < b
+            if ufunc is np.greater_equal: return a >= b
+            if ufunc is np.less_equal: return a <= b
+            if ufunc is np.equal: return a == b
+        raise TranslateError(f"unsupported ufunc {ufunc.__name__}")
+
+    def __array_function__(self, func, types, args, kwargs):
+        np = _np()
+        if func is np.where and len(args) == 3 and not kwargs:
+            c, a, b = args
+            if not (isinstance(c, Sym) and c.is_bool):
+                raise TranslateError("np.where with a non-symbolic condition")
+            A = a.num() if isinstance(a, Sym) else self._lift(a)
+            B = b.num() if isinstance(b, Sym) else self._lift(b)
+            return Sym(self.tr, f"(if {c.txt} then {A} else {B})")
+        if func in (np.abs, np.absolute) and len(args) == 1 and not kwargs:
+            return abs(args[0])
+        raise TranslateError(f"unsupported numpy function {getattr(func, '__name__', func)}")
+
+
+def load_module(path, name):
+    spec = importlib.util.spec_from_file_location(name, path)
+    mod = importlib.util.module_from_spec(spec)
+    try:
+        spec.loader.exec_module(mod)
+    except Exception as ex:
+        raise TranslateError(f"cannot load {path}: {type(ex).__name__}: {ex}")
+    return mod
+
+
+def function_source_strings(path, fname):
+    tree = ast.parse(open(path).read())
+    fds = [n for n in tree.body if isinstance(n, ast.FunctionDef) and n.name == fname]
+    if len(fds) != 1:
+        raise TranslateError(f"{fname} not found")
+    fd = fds[0]
+    doc = ast.get_docstring(fd, clean=False)
+    out = []
+    for n in ast.walk(fd):
+        if isinstance(n, ast.Constant) and isinstance(n.value, str) and n.value != doc and n.value not in out:
+            out.append((n.lineno, n.col_offset, n.value))
+    out.sort()
+    seen, res = set(), []
+    for _, _, s in out:
+        if s not in seen:
+            seen.add(s); res.append(s)
+    return res
+
+
+def trace_limiter(fluxLimiter, name):
+    """returns (printed-anything?, body text, denominators)"""
+    tr = Tracer()
+    buf = io.StringIO()
+    try:
+        with contextlib.redirect_stdout(buf):
+            FL = fluxLimiter(name, eps=Sym(tr, "eps"))
+            if not callable(FL):
+                raise TranslateError("fluxLimiter did not return a callable")
+            res = FL(Sym(tr, "r"))
+    except TranslateError:
+        raise
+    except Exception as ex:
+        raise TranslateError(f"tracing fluxLimiter({name!r}) raised {type(ex).__name__}: {ex}")
+    if not isinstance(res, Sym):
+        raise TranslateError(f"fluxLimiter({name!r})(r) does not depend on r symbolically: {res!r}")
+    return bool(buf.getvalue().strip()), res.num(), list(tr.dens)
 
 
 def translate(repo):
-    util = ast.parse(open(os.path.join(repo, "src/pyfvtool/utilities.py")).read())
-    adv = ast.parse(open(os.path.join(repo, "src/pyfvtool/advection.py")).read())
-    fl = [n for n in util.body if isinstance(n, ast.FunctionDef) and n.name == "fluxLimiter"]
-    if len(fl) != 1:
+    util_path = os.path.join(repo, "src/pyfvtool/utilities.py")
+    adv_path = os.path.join(repo, "src/pyfvtool/advection.py")
+    # utilities.py imports nothing from the package that the limiter needs; advection.py uses package-relative imports, so
+    # _fsign is taken from its source text alone (it must be a self-contained function of numpy only)
+    util = load_module(util_path, "_pfv_utilities_traced")
+    if not hasattr(util, "fluxLimiter"):
         raise TranslateError("fluxLimiter not found")
-    fl = fl[0]
-    argn = [a.arg for a in fl.args.args]
-    if argn != ["flName", "eps"] or len(fl.args.defaults) != 1 or not isinstance(fl.args.defaults[0], ast.Constant):
+    sig = inspect.signature(util.fluxLimiter)
+    if list(sig.parameters) != ["flName", "eps"] or not isinstance(sig.parameters["eps"].default, (int, float)):
         raise TranslateError("fluxLimiter signature changed")
-    eps_default = fl.args.defaults[0].value
-    body = [s for s in fl.body if not (isinstance(s, ast.Expr) and isinstance(s.value, ast.Constant))]
-    if len(body) != 2 or not isinstance(body[0], ast.If) or not isinstance(body[1], ast.Return) \
-            or not (isinstance(body[1].value, ast.Name) and body[1].value.id == "FL"):
-        raise TranslateError("fluxLimiter body shape changed")
+    eps_default = sig.parameters["eps"].default
+    unknown = "\x00no such limiter\x00"
+    warned, fb_body, fb_dens = trace_limiter(util.fluxLimiter, unknown)
+    if not warned:
+        raise TranslateError("fluxLimiter no longer warns about an unknown name")
     branches = []
-    node = body[0]
-    while True:
-        t = node.test
-        if not (isinstance(t, ast.Compare) and isinstance(t.left, ast.Name) and t.left.id == "flName"
-                and len(t.ops) == 1 and isinstance(t.ops[0], ast.Eq)
-                and isinstance(t.comparators[0], ast.Constant) and isinstance(t.comparators[0].value, str)):
-            raise TranslateError("unsupported test in name dispatch")
-        if len(node.body) != 1:
-            raise TranslateError("branch must contain exactly def FL")
-        branches.append((t.comparators[0].value, tr_FL(node.body[0], {"eps": "eps"})))
-        if len(node.orelse) == 1 and isinstance(node.orelse[0], ast.If):
-            node = node.orelse[0]
+    for s in function_source_strings(util_path, "fluxLimiter"):
+        if not s.isidentifier():
             continue
-        orelse = [s for s in node.orelse
-                  if not (isinstance(s, ast.Expr) and isinstance(s.value, ast.Call)
-                          and isinstance(s.value.func, ast.Name) and s.value.func.id == "print")]
-        if len(orelse) != 1:
-            raise TranslateError("fallback branch shape changed")
-        fallback = tr_FL(orelse[0], {"eps": "eps"})
-        break
+        warned, body, dens = trace_limiter(util.fluxLimiter, s)
+        if not warned:
+            branches.append((s, (body, dens)))
+    if not branches:
+        raise TranslateError("no limiter names found")
+    fallback = (fb_body, fb_dens)
     # _fsign
-    fs = [n for n in adv.body if isinstance(n, ast.FunctionDef) and n.name == "_fsign"]
+    tree = ast.parse(open(adv_path).read())
+    fs = [n for n in tree.body if isinstance(n, ast.FunctionDef) and n.name == "_fsign"]
     if len(fs) != 1:
         raise TranslateError("_fsign not found")
-    fs = fs[0]
-    if [a.arg for a in fs.args.args] != ["phi_in", "eps1"] or len(fs.args.defaults) != 1 \
-            or not isinstance(fs.args.defaults[0], ast.Constant):
+    import numpy
+    ns = {"np": numpy, "numpy": numpy}
+    try:
+        exec(compile(ast.Module(body=[fs[0]], type_ignores=[]), adv_path, "exec"), ns)
+    except Exception as ex:
+        raise TranslateError(f"cannot load _fsign: {ex}")
+    fsig = inspect.signature(ns["_fsign"])
+    if list(fsig.parameters) != ["phi_in", "eps1"] or not isinstance(fsig.parameters["eps1"].default, (int, float)):
         raise TranslateError("_fsign signature changed")
-    eps1_default = fs.args.defaults[0].value
-    fbody = [s for s in fs.body if not (isinstance(s, ast.Expr) and isinstance(s.value, ast.Constant))]
-    if len(fbody) != 1 or not isinstance(fbody[0], ast.Return):
-        raise TranslateError("_fsign body shape changed")
-    trf = ExprTr({"phi_in": "x", "eps1": "eps1"})
-    fsign_body = trf.tr(fbody[0].value)
+    eps1_default = fsig.parameters["eps1"].default
+    trf = Tracer()
+    try:
+        r = ns["_fsign"](Sym(trf, "x"), Sym(trf, "eps1"))
+    except TranslateError:
+        raise
+    except Exception as ex:
+        raise TranslateError(f"tracing _fsign raised {type(ex).__name__}: {ex}")
+    if not isinstance(r, Sym):
+        raise TranslateError("_fsign does not depend on its argument symbolically")
     if trf.dens:
         raise TranslateError("_fsign must not divide")
+    fsign_body = r.num()
 
     out = []
     w = out.append
@@ -167,10 +290,8 @@ def translate(repo):
     w("Open Scope string_scope.")
     w("Section GenLimiters.")
     w("Variable F : FieldOps.")
-    names = []
     for name, (body_, dens) in branches + [("fallback", fallback)]:
         cn = "FL_" + name
-        names.append(name)
         w(f"Definition {cn} (eps r : F) : F := {body_}.")
         for i, d in enumerate(dens):
             w(f"Definition {cn}_den{i} (eps r : F) : F := {d}.")
